@@ -31,6 +31,7 @@ class CmpExtractor:
         self.stack = []
         self.cond_paths = set()
         self.operand_params = operand_params
+        self.markers = []   # open accepting shortcuts: {"scope": "loop"|"fn", "start": index into self.out, "cond_paths", "cond"}
 
     # ---- values --------------------------------------------------------
     def pv(self, n, env):
@@ -290,7 +291,9 @@ class CmpExtractor:
                     self.bind(p["pat"], a, env2)
             self.stack.append(target)
             self.add("call", fn=target, args=args, reject_when=reject_when)
+            depth = len(self.markers)
             self.body(f["body"], env2)
+            self.close_markers(depth, "fn")
             self.stack.pop()
             return
         if path_args:
@@ -337,6 +340,7 @@ class CmpExtractor:
             f_rej = self.branch_rejects(n.get("f")) if n.get("f") else False
             rw = True if (t_rej and not f_rej) else (False if (f_rej and not t_rej) else None)
             envc = env
+            dpre = len(self.markers)
             # an accepting shortcut (continue / return of the accepting value) taken on a condition that reads only ONE operand
             # bypasses the remaining comparisons for inputs that differ on the other side
             for br in (n["t"], n.get("f")):
@@ -348,10 +352,23 @@ class CmpExtractor:
                             roots.add(v[0])
                     if len(roots) == 1:
                         self.add("one-sided-shortcut", roots=sorted(roots), cond=self.describe(n["c"], env))
+                    # comparisons that follow are skipped whenever the condition holds: they must be implied by it
+                    cps = set()
+                    for x in walk(n["c"]):
+                        v = self.pv(x, env)
+                        if self.is_path(v):
+                            cps.add(v)
+                    cps = {c for c in cps if not any(d != c and d[:len(c)] == c for d in cps)}   # maximal paths only
+                    scope = "loop" if any(x.get("k") == "Continue" for x in walk(br)) else "fn"
+                    self.markers.append({"scope": scope, "cond_paths": cps, "cond": self.describe(n["c"], env), "open": True,
+                                         "arm": self.arm, "start": None, "ranges": []})
             self.cond(n["c"], envc, rw)
+            d0 = len(self.markers)
             self.body_expr(n["t"], dict(env), result)
+            self.suspend(d0)
             if n.get("f"):
                 self.body_expr(n["f"], dict(env), result)
+            self.resume(dpre)
         elif k == "Match":
             self.match(n, env, result)
         elif k == "For":
@@ -367,9 +384,13 @@ class CmpExtractor:
                 return
             env2 = dict(env)
             self.bind(n["pat"], e, env2)
+            depth = len(self.markers)
             self.body_expr(n["body"], env2, False)
+            self.close_markers(depth, "loop")
         elif k == "Loop":
+            depth = len(self.markers)
             self.body_expr(n["body"], dict(env), False)
+            self.close_markers(depth, "loop")
         elif k == "Return":
             if n.get("e") is not None:
                 self.result_expr(n["e"], env)
@@ -431,7 +452,9 @@ class CmpExtractor:
     def match(self, n, env, result):
         scrut = self.pv(n["e"], env)
         top = (self.arm == "<top>" and not self.stack and isinstance(scrut, tuple) and scrut and scrut[0] == "tuple")
+        d0 = len(self.markers)
         for a in n["arms"]:
+            self.suspend(d0)      # comparisons in a sibling arm do not follow a shortcut taken in this one
             env2 = dict(env)
             self.bind(a["pat"], scrut, env2)
             old = self.arm
@@ -444,6 +467,7 @@ class CmpExtractor:
             if result and isinstance(b, dict) and b.get("k") not in ("Block", "If", "Match", "Return"):
                 self.result_expr(b, env2)
             self.arm = old
+        self.resume(d0)
 
     def arm_name(self, p):
         k = p.get("k")
@@ -468,7 +492,53 @@ class CmpExtractor:
             elif p["pat"].get("k") == "Bind":
                 env[p["pat"]["v"]] = ("param", p["pat"]["v"].split("#")[0])
         self.body(self.root["body"], env)
+        self.close_markers(0, "fn")
         return self.out
+
+    def suspend(self, depth):
+        for m in self.markers[depth:]:
+            if m["open"] and m["start"] is not None:
+                m["ranges"].append((m["start"], len(self.out)))
+                m["start"] = None
+
+    def resume(self, depth):
+        for m in self.markers[depth:]:
+            if m["open"] and m["start"] is None:
+                m["start"] = len(self.out)
+
+    def close_markers(self, depth, scope):
+        """an accepting shortcut opened at index >= depth ends here (end of the loop body for `continue`, end of the function
+        for an accepting `return`): every rejecting comparison recorded since is one it skips"""
+        for m in self.markers[depth:]:
+            if not m.get("open") or (m["scope"] == "fn" and scope == "loop"):
+                continue
+            m["open"] = False
+            skipped = []
+            if m["start"] is not None:
+                m["ranges"].append((m["start"], len(self.out)))
+            for f in [x for a, b in m["ranges"] for x in self.out[a:b]]:
+                if f["kind"] not in ("cmp", "rec", "isnone", "issome", "joint", "opaque-call"):
+                    continue
+                ps = []
+                if f["kind"] == "cmp":
+                    ps = [f.get("l"), f.get("r")]
+                elif f["kind"] in ("rec", "opaque-call"):
+                    ps = list(f.get("args") or [])
+                elif f["kind"] in ("isnone", "issome"):
+                    ps = [f.get("p")]
+                ps = [p for p in ps if self.is_path(p)]
+                if not ps:
+                    continue
+
+                def covered(p):
+                    # the condition looked at this very fact (or a container of it) on BOTH operands
+                    q = strip_root(p)
+                    roots = {c[0] for c in m["cond_paths"] if strip_root(c) == q[:len(strip_root(c))]}
+                    return len(roots) >= self.n_operands
+                if not all(covered(p) for p in ps):
+                    skipped.append(".".join(str(x) for x in strip_root(ps[0])))
+            if skipped:
+                self.out.append(Fact(kind="skipping-shortcut", arm=m["arm"], cond=m["cond"], skipped=sorted(set(skipped))))
 
 
 def strip_root(p):
